@@ -493,13 +493,7 @@ func runOrNosc(c *core.Ctx) {
 		return
 	}
 	c.CountFuncs(1)
-	var call ssa.CallInstruction
-	for _, ci := range calls(fn) {
-		n := an.CalleeName(ci.Common())
-		if strings.HasSuffix(n, ".LimitMatch") || strings.HasSuffix(n, ").LimitMatch") {
-			call = ci
-		}
-	}
+	_, call := foldTarget(fn, "LimitMatch")
 	if call == nil {
 		c.Bad(nil, fname(c, fn), "member-call", P.Pos(fn.Pos()), "the OR over filters does not call the members' counting matcher (LimitMatch): per-filter counters never advance")
 		return
@@ -616,6 +610,55 @@ func init() {
 		Doc: "a filter list matches when ANY member matches and is Done when ALL members are", Run: runCombTab})
 }
 
+// foldTarget: where the loop over the members is and which call in it consults
+// a member: in fn itself (`mm.Match(e)`), or — when fn hands the per-member
+// action to a private iteration helper as a function value,
+// `m.matchAny(func(mm T) bool { return mm.Match(e) })` — in that helper, at
+// the call of its function parameter.
+func foldTarget(fn *ssa.Function, member string) (*ssa.Function, *ssa.Call) {
+	isMember := func(ci ssa.CallInstruction) bool {
+		n := an.CalleeName(ci.Common())
+		return strings.HasSuffix(n, ")."+member) || strings.HasSuffix(n, "."+member)
+	}
+	for _, ci := range calls(fn) {
+		if cc, isCall := ci.(*ssa.Call); isCall && isMember(ci) {
+			return fn, cc
+		}
+	}
+	for _, ci := range calls(fn) {
+		hc, isCall := ci.(*ssa.Call)
+		if !isCall {
+			continue
+		}
+		h := an.StaticCallee(&hc.Call)
+		if !an.PrivateHelper(h) || len(h.Params) != len(hc.Call.Args) {
+			continue
+		}
+		for i, a := range hc.Call.Args {
+			cl := funcValue(a)
+			if cl == nil || len(cl.Blocks) != 1 {
+				continue
+			}
+			// the closure is exactly "return member(arg)"
+			consults := false
+			for _, cci := range calls(cl) {
+				if isMember(cci) {
+					consults = true
+				}
+			}
+			if !consults {
+				continue
+			}
+			for _, hci := range calls(h) {
+				if cc, isCall := hci.(*ssa.Call); isCall && an.Unwrap(cc.Call.Value) == ssa.Value(h.Params[i]) {
+					return h, cc
+				}
+			}
+		}
+	}
+	return fn, nil
+}
+
 // foldCell: what one loop iteration does for (accumulator value, member verdict).
 type foldCell struct {
 	out       string // "cont:T" "cont:F" "ret:T" "ret:F" "cont" "?"
@@ -636,15 +679,7 @@ type foldSem struct {
 // are covered: an iteration either continues with a new accumulator value or
 // returns a value.
 func foldSemantics(fn *ssa.Function, member string) (sem foldSem, ok bool) {
-	var call *ssa.Call
-	for _, ci := range calls(fn) {
-		n := an.CalleeName(ci.Common())
-		if strings.HasSuffix(n, ")."+member) || strings.HasSuffix(n, "."+member) {
-			if cc, isCall := ci.(*ssa.Call); isCall {
-				call = cc
-			}
-		}
-	}
+	fn, call := foldTarget(fn, member)
 	if call == nil {
 		return sem, false
 	}
